@@ -2,7 +2,10 @@ package rules
 
 import (
 	"fmt"
+	"go/constant"
 	"go/token"
+	"go/types"
+	"strings"
 
 	"golang.org/x/tools/go/ssa"
 
@@ -255,4 +258,84 @@ func ruleEsc3(c *Ctx) {
 	if n == 0 {
 		c.Unknown("String methods", "-", "cannot-analyse: no String() methods found in lib/parser")
 	}
+}
+
+// R-SCAN-2 --------------------------------------------------------------------
+
+func init() {
+	Register(&Rule{ID: "R-SCAN-2", Props: []string{"C18", "C19"}, Floor: 6,
+		Doc: "the scanner's loops end at the end of the input: in every loop of a lib/parser Scanner method that tests the look-ahead against EOF, the edge on which the character IS EOF leaves the loop (its target is outside the loop body) — at EOF nothing more can be consumed, so a loop that goes on (a `break` that only leaves a switch) never terminates and the parser hangs on an unclosed quote",
+		Controls: []string{"CtlEOFBreaksOnlySwitch"},
+		Run:      ruleScan2})
+}
+
+func ruleScan2(c *Ctx) {
+	eofVal := int64(-1)
+	if pk := c.P.ByPath["lib/parser"]; pk != nil {
+		if k, ok := pk.Types.Scope().Lookup("EOF").(*types.Const); ok {
+			if v, ok := constant.Int64Val(k.Val()); ok {
+				eofVal = v
+			}
+		} else {
+			c.Unknown("EOF", "-", "cannot-analyse: lib/parser declares no constant EOF")
+			return
+		}
+	}
+	n := 0
+	for _, fn := range c.P.FuncsIn(true, "lib/parser") {
+		isScanner := false
+		if len(fn.Params) > 0 && strings.HasSuffix(core.NamedOf(fn.Params[0].Type()), "Scanner") {
+			isScanner = true
+		}
+		if c.P.IsControl(fn) && strings.Contains(fn.Name(), "EOF") {
+			isScanner = true
+		}
+		if !isScanner {
+			continue
+		}
+		loops := core.NaturalLoops(fn)
+		k := 0
+		for _, b := range fn.Blocks {
+			if len(b.Instrs) == 0 {
+				continue
+			}
+			iff, ok := b.Instrs[len(b.Instrs)-1].(*ssa.If)
+			if !ok || len(b.Succs) != 2 {
+				continue
+			}
+			bo, ok := iff.Cond.(*ssa.BinOp)
+			if !ok || (bo.Op != token.EQL && bo.Op != token.NEQ) {
+				continue
+			}
+			isEOF := func(v ssa.Value) bool {
+				kv, ok := core.ConstInt(v)
+				return ok && kv == eofVal && isRuneLike(v.Type())
+			}
+			if !isEOF(bo.X) && !isEOF(bo.Y) {
+				continue
+			}
+			l := core.InnermostLoop(loops, b)
+			if l == nil {
+				continue
+			}
+			k++
+			n++
+			c.Touch(fn)
+			eofEdge := b.Succs[0]
+			if bo.Op == token.NEQ {
+				eofEdge = b.Succs[1]
+			}
+			key := c.KeyAt(fn, fmt.Sprintf("EOF test #%d leaves its loop", k))
+			c.Check(!l.Blocks[eofEdge], key, c.Pos(iff), "the EOF edge leaves the loop",
+				"when the look-ahead is EOF the loop goes on (the branch target is still inside the loop body — a `break` that only leaves a switch?): nothing more can be consumed at the end of the input, so the scanner never returns")
+		}
+	}
+	if n == 0 {
+		c.Unknown("EOF tests", "-", "cannot-analyse: no loop of a Scanner method tests against EOF")
+	}
+}
+
+func isRuneLike(t types.Type) bool {
+	b, ok := t.Underlying().(*types.Basic)
+	return ok && (b.Kind() == types.Int32 || b.Kind() == types.UntypedRune || b.Kind() == types.Int || b.Kind() == types.UntypedInt)
 }
